@@ -313,10 +313,10 @@ impl PObs {
         let mut t = Tally::default();
         for (v, w) in self.ballots.values() {
             match v {
-                VoteA::Yes => t.y += w,
-                VoteA::No => t.n += w,
-                VoteA::Abstain => t.a += w,
-                VoteA::Veto => t.v += w,
+                VoteA::Yes => t.y = t.y.saturating_add(*w),
+                VoteA::No => t.n = t.n.saturating_add(*w),
+                VoteA::Abstain => t.a = t.a.saturating_add(*w),
+                VoteA::Veto => t.v = t.v.saturating_add(*w),
             }
         }
         t
@@ -342,9 +342,9 @@ pub struct PRef {
     pub created_h: u64,
     pub created_t: u64,
     pub snapshot: BTreeMap<u8, u64>,
-    pub snap_total: u64,
+    pub snap_total: u128,
     pub same_block_change: bool,
-    pub cur_total_at_propose: u64,
+    pub cur_total_at_propose: u128,
     pub cur_proposer_weight: Option<u64>,
     pub executed: bool,
     pub dispatched: u8,
@@ -638,7 +638,7 @@ impl Cw3Model {
         let mut tags = vec![];
         if self.cfg.flex && pr.same_block_change {
             let proposer_ballot = po.ballots.get(&self.cfg.addr(pr.proposer)).map(|b| b.1);
-            if po.total == pr.cur_total_at_propose && proposer_ballot == Some(pr.cur_proposer_weight.unwrap_or(0)) {
+            if po.total as u128 == pr.cur_total_at_propose && proposer_ballot == Some(pr.cur_proposer_weight.unwrap_or(0)) {
                 tags.push("flex_propose_after_group_change_in_same_block_uses_current_total_and_weight".to_string());
             }
         }
@@ -678,7 +678,9 @@ impl Cw3Model {
             let (passes, canp, expired, tally) = self.implied(po, h, t);
             let over = tally.sum() > po.total as u128;
             // in C06 runs the status oracle skips proposals hit by the known same-block finding (their total is wrong by D3)
-            if cfg.props.c03 && !(cfg.props.c06 && pr.same_block_change) {
+            // D3 (known finding) can make a proposal's ballots outweigh its total; only then is the status
+            // oracle not applicable. Otherwise the status must follow from the REPORTED total and ballots.
+            if cfg.props.c03 && !(pr.same_block_change && over) {
                 if po.list_status != Some(po.status) || po.rev_status != Some(po.status) {
                     v.push(Violation::new("C03.status_same_in_all_proposal_queries", format!("proposal {}: Proposal query {:?}, ListProposals {:?}, ReverseProposals {:?}", po.id, po.status, po.list_status, po.rev_status)));
                 }
@@ -739,7 +741,7 @@ impl Cw3Model {
             }
             if cfg.props.c06 {
                 let tags = self.d3_tags(pr, po);
-                if po.total != pr.snap_total {
+                if po.total as u128 != pr.snap_total {
                     v.push(Violation::tagged("C06.total_is_sum_of_snapshot_weights", format!("proposal {}: total_weight {} but the snapshot it was opened against sums to {} ({:?})", po.id, po.total, pr.snap_total, pr.snapshot), tags.clone()));
                 }
                 if over {
@@ -788,7 +790,7 @@ impl Cw3Model {
                     }
                     let tw: Result<cw4::TotalWeightResponse, String> = q(w, &group(), &cw4::Cw4QueryMsg::TotalWeight { at_height: Some(pr.created_h) });
                     if let Ok(tw) = tw {
-                        if tw.weight != pr.snap_total {
+                        if tw.weight as u128 != pr.snap_total {
                             v.push(Violation::new("C06.reference_snapshot_matches_group_history", format!("TotalWeight{{at_height {}}} = {}, reference {}", pr.created_h, tw.weight, pr.snap_total)));
                         }
                     }
@@ -982,7 +984,7 @@ impl Model for Cw3Model {
         }
         r.group_now = voters_map.clone();
         r.group_start = voters_map;
-        if cfg.props.c15 {
+        if cfg.props.c15 || !matches!(cfg.deposit, Dep::None) {
             for i in 0..cfg.actors.len() as u8 {
                 w.set_balance(&cfg.addr(i), DENOM, cfg.purse);
                 w.set_balance(&cfg.addr(i), DENOM2, 1);
@@ -1190,7 +1192,8 @@ impl Model for Cw3Model {
                     if let Some(po) = pre.props.iter().find(|p| p.id == *id) {
                         let (passes, _, _, _) = self.implied(po, h, t);
                         let executed = r.props[(*id - 1) as usize].executed;
-                        if passes && !executed {
+                        let d3_over = r.props[(*id - 1) as usize].same_block_change && po.tally().sum() > po.total as u128;
+                        if passes && !executed && !d3_over && self.authorised(&r, match a { Act::Execute { by, .. } => Some(*by), _ => None }) {
                             v.push(Violation::new("C03.execute_admitted_when_passed", format!("{a:?} refused although the ballots imply Passed (tally {:?}, total {})", po.tally(), po.total)));
                         }
                     }
@@ -1214,14 +1217,14 @@ impl Model for Cw3Model {
         // ---------------------------------------------------------------- accepted call: step the reference
         match a {
             Act::Propose { by, kind, funds, .. } => {
-                let total_now: u64 = r.group_now.values().sum();
+                let total_now: u128 = r.group_now.values().map(|x| *x as u128).sum();
                 let pr = PRef {
                     proposer: *by,
                     kind: *kind,
                     created_h: h,
                     created_t: t,
                     snapshot: r.group_start.clone(),
-                    snap_total: r.group_start.values().sum(),
+                    snap_total: r.group_start.values().map(|x| *x as u128).sum(),
                     same_block_change: r.changed_this_block,
                     cur_total_at_propose: total_now,
                     cur_proposer_weight: r.group_now.get(by).copied(),
@@ -1294,7 +1297,7 @@ impl Model for Cw3Model {
                 if let Some(po) = pre.props.iter().find(|p| p.id == *id) {
                     let (passes, _, _, tally) = self.implied(po, h, t);
                     let pr = r.props[(*id - 1) as usize].clone();
-                    let skip_d3 = cfg.props.c06 && pr.same_block_change;
+                    let skip_d3 = pr.same_block_change && tally.sum() > po.total as u128;
                     if cfg.props.c03 && !skip_d3 && (!passes || pr.executed) {
                         let tags = if tally.y == 0 { vec!["zero_yes".to_string()] } else { vec![] };
                         v.push(Violation::tagged("C03.execute_admitted_only_when_passed", format!("{a:?} accepted: threshold {:?} total {} tally {:?} executed {}", po.th, po.total, tally, pr.executed), tags));
@@ -1343,7 +1346,7 @@ impl Model for Cw3Model {
                 if let Some(po) = pre.props.iter().find(|p| p.id == *id) {
                     let (passes, _, expired, tally) = self.implied(po, h, t);
                     let pr = r.props[(*id - 1) as usize].clone();
-                    let skip_d3 = cfg.props.c06 && pr.same_block_change;
+                    let skip_d3 = pr.same_block_change && tally.sum() > po.total as u128;
                     if (cfg.props.c03 || cfg.props.c05) && !skip_d3 && (!expired || passes || pr.executed) {
                         v.push(Violation::new(
                             if cfg.props.c03 { "C03.close_admitted_only_when_expired_unpassed" } else { "C05.close_only_expired_unpassed" },
@@ -1382,8 +1385,36 @@ impl Model for Cw3Model {
                     v.push(Violation::new("C05.dispatched_at_most_once", format!("{a:?}: messages of proposal {pid} dispatched {} times over the history", pr.dispatched)));
                 }
             }
-            if let Act::Execute { id, .. } = a {
+            if let (Act::Execute { id, .. }, Some(o)) = (a, &out_tx) {
+                // what the multisig itself sent out in this call: exactly the proposed list, in order; the
+                // only other message allowed is the return of the proposal's own deposit
                 let pr = &r.props[(*id - 1) as usize];
+                let want = self.msgs_of(pr.kind, *id);
+                let sent: Vec<&CosmosMsg> = o.dispatched.iter().filter(|d| d.depth == 0 && d.sender == msa).map(|d| &d.msg).collect();
+                let is_refund = |m: &CosmosMsg| -> bool {
+                    match (cfg.deposit, m) {
+                        (Dep::Native { amount, .. }, CosmosMsg::Bank(BankMsg::Send { to_address, amount: coins })) => {
+                            *to_address == cfg.addr(pr.proposer) && coins.len() == 1 && coins[0].denom == DENOM && coins[0].amount.u128() == amount
+                        }
+                        (Dep::Cw20 { .. }, CosmosMsg::Wasm(WasmMsg::Execute { contract_addr, .. })) => *contract_addr == tok(),
+                        _ => false,
+                    }
+                };
+                let mut rest: Vec<&CosmosMsg> = vec![];
+                let mut refunds = 0;
+                for m in &sent {
+                    if refunds == 0 && is_refund(m) && !want.contains(m) {
+                        refunds += 1;
+                    } else {
+                        rest.push(m);
+                    }
+                }
+                if rest.len() != want.len() || rest.iter().zip(want.iter()).any(|(x, y)| *x != y) {
+                    v.push(Violation::new(
+                        "C05.relays_exactly_the_proposed_messages",
+                        format!("{a:?}: the multisig sent {} message(s) {:?}, the proposal holds {} {:?}", rest.len(), rest, want.len(), want),
+                    ));
+                }
                 if Cw3Model::n_tags(pr.kind) > 0 && !delivered.contains_key(id) {
                     v.push(Violation::new("C05.execute_dispatches_the_messages", format!("{a:?} succeeded but none of its messages reached the receiver")));
                 }
